@@ -309,6 +309,41 @@ func ParseReq(op *Op, req reflect.Value) (params reflect.Value, err error, panic
 	return params, err, ""
 }
 
+// RawBodyReader returns a reader over raw in one of the shapes a handler's raw
+// response body (or a client's raw request body) takes in practice, chosen by n:
+// a bytes.Reader behind io.NopCloser (has WriteTo), a plain reader that hands the
+// content out in chunks, or a reader that returns its last bytes together with
+// io.EOF (as the body of an upstream http.Response with a known length does).
+func RawBodyReader(raw []byte, n int) io.ReadCloser {
+	switch n % 3 {
+	case 1:
+		return &chunkReader{data: raw, chunk: 1 + len(raw)/3}
+	case 2:
+		return &chunkReader{data: raw, chunk: 1 + len(raw)/2, eofWithData: true}
+	}
+	return io.NopCloser(bytes.NewReader(raw))
+}
+
+type chunkReader struct {
+	data        []byte
+	chunk       int
+	eofWithData bool
+}
+
+func (c *chunkReader) Read(b []byte) (int, error) {
+	if len(c.data) == 0 {
+		return 0, io.EOF
+	}
+	n := copy(b, c.data[:min(len(c.data), c.chunk)])
+	c.data = c.data[n:]
+	if len(c.data) == 0 && c.eofWithData {
+		return n, io.EOF
+	}
+	return n, nil
+}
+
+func (c *chunkReader) Close() error { return nil }
+
 // BodyOfUnknownLength wraps body so that net/http cannot see its length: the request
 // then has ContentLength -1, as a chunked (streamed) upload or an HTTP/2 request
 // without content-length has.
